@@ -707,6 +707,16 @@ func c16Replicated(c *fw.Ctx) {
 			continue
 		}
 		if lateCheck {
+			for _, f := range cl.AllFollowers() {
+				rows := 0
+				for _, t := range tables {
+					rows += len(f.Query(ctxBackground(), "SELECT _points FROM "+t.name, true).Rows)
+				}
+				if rows == 0 {
+					c.Inconclusive("follower of partition %d holds nothing in any table after the watchdog (not joined on this loaded machine?): %s", f.Partition, missing)
+					return
+				}
+			}
 			c.ViolateData("c16-replication-stalled", lastPayload, "after %d hostile payloads through the leader, with its follow pipeline idle for 45s, %s: valid points inserted afterwards are not replicated", hostileDone, missing)
 			return
 		}
